@@ -58,7 +58,7 @@ func (p *contentProvider) scoreChunk(ms []*candidateMatch, language string, opts
 		// If this match represents a new line, then score the previous line and update 'start'.
 		if i != 0 && lineNumber != currentLine {
 			score, si := p.scoreLine(ms[start:i], language, currentLine, opts)
-			symbolInfo = append(symbolInfo, si...)
+			symbolInfo = appendSymbolInfo(symbolInfo, start, si)
 			if score.score > bestScore.score {
 				bestScore = score
 				bestLine = currentLine
@@ -70,7 +70,10 @@ func (p *contentProvider) scoreChunk(ms []*candidateMatch, language string, opts
 
 	// Make sure to score the last line
 	line, si := p.scoreLine(ms[start:], language, currentLine, opts)
-	symbolInfo = append(symbolInfo, si...)
+	symbolInfo = appendSymbolInfo(symbolInfo, start, si)
+	if symbolInfo != nil {
+		symbolInfo = appendSymbolInfo(symbolInfo, len(ms), nil)
+	}
 	if line.score > bestScore.score {
 		bestScore = line
 		bestLine = currentLine
@@ -84,6 +87,19 @@ func (p *contentProvider) scoreChunk(ms []*candidateMatch, language string, opts
 		cs.debugScore = fmt.Sprintf("%s, (line: %d)", bestScore.debugScore, bestLine)
 	}
 	return cs, symbolInfo
+}
+
+// appendSymbolInfo appends the symbol information si of the matches that start
+// at index start. The result stays parallel to the matches of the chunk: the
+// lines before start that had no symbol information are padded with nil.
+func appendSymbolInfo(symbolInfo []*zoekt.Symbol, start int, si []*zoekt.Symbol) []*zoekt.Symbol {
+	if si == nil && symbolInfo == nil {
+		return nil
+	}
+	for len(symbolInfo) < start {
+		symbolInfo = append(symbolInfo, nil)
+	}
+	return append(symbolInfo, si...)
 }
 
 type lineScore struct {
@@ -224,13 +240,17 @@ func (p *contentProvider) scoreLineBM25(ms []*candidateMatch, lineNumber int) (f
 
 	// Check if any index comes from a symbol match tree, and if so hydrate in symbol information
 	var symbolInfo []*zoekt.Symbol
-	for _, m := range ms {
+	for i, m := range ms {
 		if m.symbol {
 			if sec, si, ok := p.findSymbol(m); ok && si != nil {
+				// symbolInfo is parallel to ms, like in scoreLine.
+				if symbolInfo == nil {
+					symbolInfo = make([]*zoekt.Symbol, len(ms))
+				}
 				// findSymbols does not hydrate in Sym. So we need to store it.
 				sym := sectionSlice(p.data(false), sec)
 				si.Sym = string(sym)
-				symbolInfo = append(symbolInfo, si)
+				symbolInfo[i] = si
 			}
 		}
 	}
